@@ -60,6 +60,9 @@ def correspondence(ctx, model_ok, tmp):
     root = os.path.join(tmp, "r")
     b = repo.make_butler(root)
     repo.basic_dimensions(b, detectors=(1, 2, 3, 4))
+    # a second instrument whose datasets share runs and detector numbers with the first: lookups pinned to instrument I must
+    # not be disturbed by them (collections that hold a dataset type for several governor values)
+    repo.basic_dimensions(b, instrument="J", detectors=(1, 2, 3, 4))
     reg = b.registry
     dt = DatasetType("dt", {"instrument", "detector"}, "StructuredDataDict", universe=b.dimensions)
     reg.registerDatasetType(dt)
@@ -70,6 +73,7 @@ def correspondence(ctx, model_ok, tmp):
     def viol(what, key, replay):
         ctx.violations.append(core.Violation(what=what, key=key, replay=replay))
 
+    poisoned = False
     for h in range(n_hist):
         names = {}  # id -> name
         kinds = {}
@@ -100,6 +104,8 @@ def correspondence(ctx, model_ok, tmp):
                     contents[rcoll][k] = len(ds) - 1
                     req.append(f"ch tag {rcoll} {k} {len(ds) - 1}")
                     impl.append("ok")
+                if rng.random() < 0.4:
+                    reg.insertDatasets(dt, [{"instrument": "J", "detector": k}], run=names[rcoll])  # noise of the other instrument
         for t in tagged:
             for k in KEYS:
                 cands = [i for i, (_, kk, _) in enumerate(ds) if kk == k]
@@ -180,6 +186,10 @@ def correspondence(ctx, model_ok, tmp):
             if (want_err is None) != (out == "ok") or (want_err == "CollectionCycleError" and out != "err CollectionCycleError"):
                 viol(f"{op}_chain({p}, {kids}) -> {out}, documented outcome: {want_err or 'ok'}", f"edit:{ops_log}",
                      {"kind": "history", "ops": ops_log, "failing_step": step})
+                if want_err == "CollectionCycleError" and out == "ok":
+                    # the repository now holds a cyclic chain: reading it back or flattening it may never return
+                    poisoned = True
+                    break
             # ---- observe every chain: rows with positions, and getCollectionChain
             key_of = {nm: k for k, nm in names.items()}
             for c in chains:
@@ -196,6 +206,8 @@ def correspondence(ctx, model_ok, tmp):
                     viol(f"after {ops_log[-1]}: getCollectionChain({c}) = {got}, documented child order {chain_def[c]}",
                          f"children:{ops_log}", {"kind": "history", "ops": ops_log, "chain": c, "got": got, "want": chain_def[c]})
         con.close()
+        if poisoned:
+            break
 
         # ---- flattening and find-first
         def flat(path):
@@ -247,11 +259,15 @@ def correspondence(ctx, model_ok, tmp):
                         outs["Butler.find_dataset"] = None if r2 is None else id_of[r2.id]
                         results[k] = outs
                     try:
-                        q1 = {r.dataId["detector"]: id_of[r.id] for r in reg.queryDatasets(dt, collections=pn, findFirst=True)}
+                        q1 = {r.dataId["detector"]: id_of[r.id] for r in reg.queryDatasets(dt, collections=pn, findFirst=True, instrument="I")}
                     except Exception as e:
                         q1 = f"{type(e).__name__}"
                     try:
-                        q2l = b.query_datasets(dt, collections=pn, find_first=True, explain=False)
+                        # with a plain governor constraint, or with a constraint that brings in a dimension outside the dataset
+                        # type's own (every detector joins the one physical filter, so the answer is the same)
+                        extra = rng.random() < 0.5
+                        q2l = b.query_datasets(dt, collections=pn, find_first=True, explain=False, instrument="I",
+                                               where="physical_filter = 'f'" if extra else "")
                         q2 = {r.dataId["detector"]: id_of[r.id] for r in q2l}
                         dupes = len(q2l) != len(q2)
                     except Exception as e:
